@@ -1,1 +1,9 @@
-"""A-MPL model (filled in for C18)"""
+"""A-MPL: Text(x, y, text, **kwargs) anchors the string at (x, y)"""
+
+
+class Text:
+    def __init__(self, x=0, y=0, text='', **kwargs):
+        self.x = x
+        self.y = y
+        self.text = text
+        self.kwargs = dict(kwargs)
